@@ -167,13 +167,20 @@ func runCase(t *testing.T, run *core.Run, name string, idx int, rng *rand.Rand) 
 		name string
 		mut  func(t *lib.Transaction)
 		ok   bool
+		post func(t *lib.Transaction) // applied AFTER signing: the envelope is re-labelled, the signature kept
 	}
 	for _, c := range []wcase{
-		{"other-chain", func(t *lib.Transaction) { t.ChainId = 2 }, false},
-		{"other-network", func(t *lib.Transaction) { t.NetworkId = 2 }, false},
-		{"height-above-window", func(t *lib.Transaction) { t.CreatedHeight = h + fsm.BlockAcceptanceRange + 3 }, false},
-		{"height-at-window-edge", func(t *lib.Transaction) { t.CreatedHeight = h + fsm.BlockAcceptanceRange }, true},
-		{"height-zero", func(t *lib.Transaction) { t.CreatedHeight = 0 }, false},
+		{"other-chain", func(t *lib.Transaction) { t.ChainId = 2 }, false, nil},
+		{"other-network", func(t *lib.Transaction) { t.NetworkId = 2 }, false, nil},
+		{"height-above-window", func(t *lib.Transaction) { t.CreatedHeight = h + fsm.BlockAcceptanceRange + 3 }, false, nil},
+		{"height-at-window-edge", func(t *lib.Transaction) { t.CreatedHeight = h + fsm.BlockAcceptanceRange }, true, nil},
+		{"height-zero", func(t *lib.Transaction) { t.CreatedHeight = 0 }, false, nil},
+		// signed for another chain / network / creation height, then re-labelled for this one without re-signing: the
+		// signature must cover the domain fields
+		{"signed-for-chain-2-relabelled", func(t *lib.Transaction) { t.ChainId = 2 }, false, func(t *lib.Transaction) { t.ChainId = 1 }},
+		{"signed-for-chain-7-relabelled", func(t *lib.Transaction) { t.ChainId = 7 }, false, func(t *lib.Transaction) { t.ChainId = 1 }},
+		{"signed-for-network-2-relabelled", func(t *lib.Transaction) { t.NetworkId = 2 }, false, func(t *lib.Transaction) { t.NetworkId = node.NetworkID }},
+		{"signed-for-far-future-height-relabelled", func(t *lib.Transaction) { t.CreatedHeight = h + 100000 }, false, func(t *lib.Transaction) { t.CreatedHeight = h }},
 	} {
 		seq++
 		to := crypto.NewAddressFromBytes(crypto.Hash([]byte(fmt.Sprintf("%s/w%d", name, seq)))[:20])
@@ -181,6 +188,9 @@ func runCase(t *testing.T, run *core.Run, name string, idx int, rng *rand.Rand) 
 		tx := &lib.Transaction{MessageType: fsm.MessageSendName, Msg: a, CreatedHeight: h, Time: uint64(1_800_000_000_000_000 + seq), Fee: 10000, NetworkId: node.NetworkID, ChainId: 1}
 		c.mut(tx)
 		_ = tx.Sign(s.key)
+		if c.post != nil {
+			c.post(tx)
+		}
 		bz, _ := lib.Marshal(tx)
 		if _, err := w.Ch.Step(0, [][]byte{bz}, nil); err != nil {
 			t.Fatalf("%s: window step: %v", name, err)
